@@ -67,6 +67,14 @@ Verdict(e) ==
     [] e.op = "length" ->
          IF e.res.k = "Exception" THEN "C06.length_raises"
          ELSE IF R(e.res.q[1], e.res.q[2]) = Len2(e.args[1]) THEN "" ELSE "C06.length"
+    \* the solver with integer / Fraction systems is exact: truthiness, number of free parameters and every returned tuple
+    [] e.op = "solve" ->
+         IF e.truthy # Consistent(e.m) THEN "C16.truthiness"
+         ELSE IF e.truthy /\ e.varargs # FreeCount(e.m) THEN "C16.varargs" ELSE ""
+    [] e.op = "solution_call" ->
+         IF ~Consistent(e.m) THEN (IF "exc" \in DOMAIN e THEN "" ELSE "C16.inconsistent_called")
+         ELSE IF "exc" \in DOMAIN e THEN (IF Len(e.params) = FreeCount(e.m) THEN "C16.call_raises" ELSE "")
+         ELSE IF Len(e.x) = Unknowns(e.m) /\ IsSolution(e.m, [i \in 1..Len(e.x) |-> R(e.x[i][1], e.x[i][2])]) THEN "" ELSE "C16.not_a_solution"
     [] OTHER -> "skip"
 
 TraceInit == l = 1 /\ bad = <<>> /\ skipped = 0
